@@ -1,6 +1,7 @@
 package vegeta_test
 
 import (
+	"bytes"
 	"fmt"
 	"net/http"
 	"net/http/httptest"
@@ -31,6 +32,9 @@ type c05Net struct {
 	// the attacker follows them (Redirects option, as the command line always sets it)
 	Hops      int `json:",omitempty"`
 	Redirects int `json:",omitempty"`
+	// TailMS > 0: the final response's body comes in two halves, the second this much later, and only MaxBody(8)
+	// bytes are captured: the exchange still lasts until the body has been read to its end
+	TailMS int `json:",omitempty"`
 }
 
 func runC05Net(c c05Net) error {
@@ -54,6 +58,14 @@ func runC05Net(c c05Net) error {
 			return
 		}
 		w.Write([]byte("ok"))
+		if c.TailMS > 0 {
+			w.Write(bytes.Repeat([]byte("h"), 30))
+			if f, ok := w.(http.Flusher); ok {
+				f.Flush()
+			}
+			time.Sleep(time.Duration(c.TailMS) * time.Millisecond)
+			w.Write(bytes.Repeat([]byte("t"), 32))
+		}
 		mu.Lock()
 		if _, seen := arrive[seq]; !seen {
 			arrive[seq] = a
@@ -64,7 +76,7 @@ func runC05Net(c c05Net) error {
 	}))
 	defer srv.Close()
 	atk := vegeta.NewAttacker(vegeta.Workers(uint64(c.Workers)), vegeta.MaxWorkers(uint64(c.Workers)), vegeta.MaxConnections(c.MaxConnections),
-		vegeta.Connections(c.Connections), vegeta.KeepAlive(c.KeepAlive), vegeta.HTTP2(c.HTTP2), vegeta.Timeout(20*time.Second), vegeta.Redirects(c.Redirects))
+		vegeta.Connections(c.Connections), vegeta.KeepAlive(c.KeepAlive), vegeta.HTTP2(c.HTTP2), vegeta.Timeout(20*time.Second), vegeta.Redirects(c.Redirects), vegeta.MaxBody(map[bool]int64{true: 8, false: -1}[c.TailMS > 0]))
 	before := time.Now()
 	var results []*vegeta.Result
 	for r := range atk.Attack(vegeta.NewStaticTargeter(vegeta.Target{Method: "GET", URL: srv.URL + fmt.Sprintf("/hop/%d", c.Hops)}), stopAfterPacer{uint64(c.Hits)}, 0, "c05net") {
@@ -110,6 +122,9 @@ func TestC05RealTransport(t *testing.T) {
 		c := c05Net{Workers: rapid.IntRange(1, 8).Draw(t, "workers"), Hits: rapid.IntRange(4, 24).Draw(t, "hits"), ServiceMS: rapid.SampledFrom([]int{0, 5, 20, 40}).Draw(t, "service"),
 			MaxConnections: rapid.SampledFrom([]int{0, 1, 2, 4}).Draw(t, "maxconns"), Connections: rapid.SampledFrom([]int{1, 2, 10000}).Draw(t, "conns"),
 			KeepAlive: rapid.Bool().Draw(t, "keepalive"), HTTP2: rapid.Bool().Draw(t, "http2"), Redirects: 10}
+		if rapid.IntRange(0, 2).Draw(t, "tail") == 0 {
+			c.TailMS = rapid.SampledFrom([]int{20, 60}).Draw(t, "tailms")
+		}
 		if rapid.Bool().Draw(t, "redirected") {
 			c.Hops = rapid.IntRange(1, 3).Draw(t, "hops")
 			c.Redirects = rapid.SampledFrom([]int{3, 10}).Draw(t, "redirects")
